@@ -51,6 +51,55 @@ def main(argv):
         r = replay_case(rp["case"], rp.get("model") or {})
         sys.stdout.write("\n@@RESULT@@" + json.dumps(r) + "\n")
         return 0
+    if cmd == "xcheck":
+        # engine cross-check (CPython differential): proxy run with constant symbols vs native run, same harness, same inputs
+        import random
+        import subprocess
+        from fractions import Fraction
+
+        case_id, seed, npts = argv[2], int(argv[3]), int(argv[4])
+        load_contracts()
+        from gvc.harness import BY_ID, concrete_proxy_run
+
+        case = BY_ID[case_id]
+        rnd = random.Random(seed * 7919 + len(case_id))
+        results = []
+        tries = 0
+        while len(results) < npts and tries < npts * 6:
+            tries += 1
+            model = {n: str(Fraction(rnd.randint(-4, 4), rnd.choice([1, 1, 1, 2]))) for n in case.symbols}
+            import tempfile
+
+            with tempfile.NamedTemporaryFile("w", suffix=".json", delete=False) as f:
+                json.dump(dict(case=case_id, model=model), f)
+                name = f.name
+            env = dict(os.environ)
+            p = subprocess.run([sys.executable, "-m", "gvc.worker", "replay", name], capture_output=True, text=True, env=env, timeout=300)
+            os.unlink(name)
+            import re
+
+            m = re.search(r"@@RESULT@@(.*)$", p.stdout, re.M)
+            if not m:
+                continue
+            nat = json.loads(m.group(1))
+            if not nat.get("applicable", True):
+                continue
+            prox = concrete_proxy_run(case_id, model)
+            if prox["status"] != "ok":
+                results.append(dict(model=model, status=prox["status"]))
+                continue
+            natc = {}
+            for n, ok in nat.get("results", []):
+                natc[n] = ok if n not in natc else (natc[n] and ok)
+            dis = []
+            if bool(nat.get("exception")) != bool(prox.get("raised")):
+                dis.append(("exception", nat.get("exception"), prox.get("raised")))
+            for n, v in prox["clauses"].items():
+                if v is not None and n in natc and natc[n] != v:
+                    dis.append((n, natc[n], v))
+            results.append(dict(model=model, status="ok", compared=len([1 for n, v in prox["clauses"].items() if v is not None and n in natc]), disagreements=dis))
+        sys.stdout.write("\n@@RESULT@@" + json.dumps(dict(case=case_id, points=results)) + "\n")
+        return 0
     raise SystemExit("unknown command")
 
 
